@@ -417,10 +417,29 @@ func TestC15Ranges(t *testing.T) {
 	rapid.Check(t, func(rt *rapid.T) {
 		ast := genExpr(rt, &syntaxCfg, rapid.IntRange(1, 6).Draw(rt, "depth"), ref.LvComma)
 		toks := ast.Flatten()
-		text := ref.Join(toks, genLayout(rt, toks, rapid.IntRange(0, 4).Draw(rt, "nlw")))
+		seps := genLayout(rt, toks, rapid.IntRange(0, 4).Draw(rt, "nlw"))
+		text := ref.Join(toks, seps)
 		run.CountKey(text, ast.Count() >= 5 && hasNL(text), "")
 		run.Sample("ranges", text)
 		msg := checkRanges([]byte(text))
+		if msg == "" {
+			// the same program with a line break in front of one member access
+			// or call: wherever that is still accepted, the nodes' texts stand
+			// on their own as before
+			var at []int
+			for i, tk := range toks {
+				if tk.NoNLBefore {
+					at = append(at, i)
+				}
+			}
+			if len(at) > 0 {
+				broken := append([]string(nil), seps...)
+				broken[at[rapid.IntRange(0, len(at)-1).Draw(rt, "breakat")]] = rapid.SampledFrom(sepsNL).Draw(rt, "breaknl")
+				if m := checkRanges([]byte(ref.Join(toks, broken))); m != "" {
+					msg, text = m, ref.Join(toks, broken)
+				}
+			}
+		}
 		if msg == "" && !obs.Parse([]byte(text)).OK() {
 			msg = fmt.Sprintf("generated program %q rejected", text)
 		}
